@@ -10,6 +10,7 @@
 #include "mmd.h"
 #include "d_string.h"
 #include "token.h"
+#include "stack.h"
 #include "writer.h"
 #include "parser.h"
 #include "critic_markup.h"
